@@ -229,6 +229,10 @@ class Repo:
         for rel in self.trees:
             self.trees[rel], k_ = _drop_logging(self.trees[rel])
             self.logging_dropped += k_
+        self.walrus_hoisted = 0
+        for rel in self.trees:
+            self.trees[rel], k_ = _hoist_walrus(self.trees[rel])
+            self.walrus_hoisted += k_
         self.named_constants = _inline_named_constants(self.trees)
         for rel in self.trees:
             self.trees[rel] = _split_tuple_assignments(self.trees[rel])
@@ -837,6 +841,102 @@ DYNAMIC_SETATTR_OK = {
 }
 
 
+def _hoist_walrus(tree):
+    """Load-time normal form: `if (n := E) < k:` is `n = E; if n < k:` - an assignment expression that is evaluated whenever the statement
+    is (not in the right operand of and/or, not in an arm of a conditional expression, a comprehension or a lambda) and whose left
+    neighbours in evaluation order call nothing is written as the assignment statement it stands for.  `while (x := E) ...:` (no else
+    clause) becomes `while True: x = E; if not (...): break; ...`."""
+    import copy as _c
+    count = [0]
+
+    def has_call(e):
+        return any(isinstance(x, (ast.Call, ast.Await, ast.Yield, ast.YieldFrom)) for x in ast.walk(e))
+
+    def collect(e, out, blocked):
+        """walk e in evaluation order; append hoistable NamedExpr nodes; returns True once something with a call was passed"""
+        if isinstance(e, ast.NamedExpr):
+            blocked = collect(e.value, out, blocked)
+            if not blocked and isinstance(e.target, ast.Name):
+                out.append(e)
+            return blocked or has_call(e.value)
+        if isinstance(e, ast.BoolOp):
+            return collect(e.values[0], out, blocked) or any(has_call(v) for v in e.values[1:])
+        if isinstance(e, ast.IfExp):
+            return collect(e.test, out, blocked) or has_call(e.body) or has_call(e.orelse)
+        if isinstance(e, (ast.Lambda, ast.ListComp, ast.SetComp, ast.DictComp, ast.GeneratorExp)):
+            return blocked or has_call(e)
+        if isinstance(e, ast.Call):
+            for ch in [e.func] + list(e.args) + [k.value for k in e.keywords]:
+                blocked = collect(ch, out, blocked)
+            return True
+        for ch in ast.iter_child_nodes(e):
+            if isinstance(ch, ast.expr):
+                blocked = collect(ch, out, blocked)
+        return blocked
+
+    def strip(e, picked):
+        class S(ast.NodeTransformer):
+            def visit_NamedExpr(self, n):
+                n = self.generic_visit(n)
+                if any(n is p for p in picked):
+                    return ast.copy_location(ast.Name(id=n.target.id, ctx=ast.Load()), n)
+                return n
+        return S().visit(e)
+
+    def hoisted(expr, at):
+        out = []
+        collect(expr, out, False)
+        pre = []
+        for ne in out:
+            pre.append(ast.fix_missing_locations(ast.copy_location(
+                ast.Assign(targets=[ast.Name(id=ne.target.id, ctx=ast.Store())], value=ne.value, type_comment=None), at)))
+        # inner walruses of a hoisted value were collected before the outer one: their values are already plain names when assigned
+        return out, pre
+
+    def block(stmts):
+        res = []
+        for st in stmts:
+            for fld in ("body", "orelse", "finalbody"):
+                if isinstance(getattr(st, fld, None), list) and not isinstance(st, (ast.FunctionDef, ast.AsyncFunctionDef, ast.ClassDef)):
+                    setattr(st, fld, block(getattr(st, fld)))
+            if isinstance(st, ast.Try):
+                for h in st.handlers:
+                    h.body = block(h.body)
+            if isinstance(st, (ast.FunctionDef, ast.AsyncFunctionDef, ast.ClassDef)):
+                st.body = block(st.body)
+                res.append(st)
+                continue
+            target_field = {ast.If: "test", ast.Assign: "value", ast.AugAssign: "value", ast.AnnAssign: "value", ast.Expr: "value", ast.Return: "value", ast.While: "test"}.get(type(st))
+            e = getattr(st, target_field, None) if target_field else None
+            if e is None or not any(isinstance(x, ast.NamedExpr) for x in ast.walk(e)):
+                res.append(st)
+                continue
+            picked, pre = hoisted(e, st)
+            if not picked:
+                res.append(st)
+                continue
+            for p_ in pre:
+                p_.value = strip(p_.value, [q for q in picked if q is not p_])
+            new_e = strip(e, picked)
+            if isinstance(st, ast.While):
+                if st.orelse:
+                    res.append(st)
+                    continue
+                brk = ast.If(test=ast.UnaryOp(op=ast.Not(), operand=new_e), body=[ast.Break()], orelse=[])
+                st.test = ast.Constant(value=True)
+                st.body = pre + [brk] + st.body
+                ast.fix_missing_locations(ast.copy_location(brk, st))
+                res.append(ast.fix_missing_locations(st))
+            else:
+                setattr(st, target_field, new_e)
+                res.extend(pre)
+                res.append(ast.fix_missing_locations(st))
+            count[0] += len(picked)
+        return res
+    tree.body = block(tree.body)
+    return tree, count[0]
+
+
 def _inline_named_constants(trees):
     """Load-time normal form: a name that is bound exactly once to a closed literal - at module level (`_TOL = 1e-3`, also reached through
     `from .mod import _TOL`) or in a class body (`class C: TOL = 1e-3`, read as self.TOL / cls.TOL / C.TOL) - and never rebound (no other
@@ -1351,6 +1451,12 @@ def _split_tuple_assignments(tree):
                 first = ast.copy_location(ast.Assign(targets=[ast.Tuple(elts=elts, ctx=ast.Store())], value=n.value, type_comment=None), n)
                 return [first] + post
             # a = b = v   ->   b = v; a = b      (b a plain name: both targets denote the same object afterwards)
+            if len(n.targets) > 1 and not isinstance(n.targets[-1], ast.Name) and any(isinstance(t, ast.Name) for t in n.targets) \
+                    and not any(isinstance(x, ast.Name) and x.id in {t.id for t in n.targets if isinstance(t, ast.Name)}
+                                for t in n.targets if not isinstance(t, ast.Name) for x in ast.walk(t)):
+                # levels = table[i] = v   ->   (as below, with the plain name moved to the end: the other targets do not mention it)
+                nm_ = next(t for t in n.targets if isinstance(t, ast.Name))
+                n.targets = [t for t in n.targets if t is not nm_] + [nm_]
             if len(n.targets) > 1 and isinstance(n.targets[-1], ast.Name):
                 last = n.targets[-1]
                 out = [ast.copy_location(ast.Assign(targets=[last], value=n.value, type_comment=None), n)]
@@ -1631,9 +1737,18 @@ def _split_tuple_assignments(tree):
                 if fname is None or callee != fname:
                     continue
                 arms = a.body + a.orelse
-                if not all(isinstance(x, ast.Assign) and len(x.targets) == 1 and isinstance(x.targets[0], ast.Name) for x in arms):
+                def plain_targets(x):
+                    if not (isinstance(x, ast.Assign) and len(x.targets) == 1):
+                        return None
+                    t = x.targets[0]
+                    if isinstance(t, ast.Name):
+                        return [t.id]
+                    if isinstance(t, (ast.Tuple, ast.List)) and all(isinstance(e_, ast.Name) for e_ in t.elts):
+                        return [e_.id for e_ in t.elts]
+                    return None
+                if not all(plain_targets(x) is not None for x in arms):
                     continue
-                bound = {x.targets[0].id for x in arms}
+                bound = {nm for x in arms for nm in plain_targets(x)}
                 used = {x.id for x in ast.walk(b.value) if isinstance(x, ast.Name)}
                 if not (bound & used):
                     continue
@@ -1684,6 +1799,7 @@ def _split_tuple_assignments(tree):
             try:
                 n.body = self._sink_tail_call(n.body)
                 n = self.generic_visit(n)
+                n.body = self._sink_tail_call(n.body)          # once more: a conditional expression has become an `if` meanwhile
             finally:
                 self._fn_names.pop()
             if any(isinstance(x, ast.FunctionDef) for st in n.body for x in ast.walk(st)):
